@@ -15,24 +15,50 @@ import (
 func init() {
 	fw.Register(&fw.Prop{
 		ID: "C01",
-		Rule: "(public key, message, signature) triples in classes: honest (crypto/ed25519 signatures, message length 0..300), bitflip (1-2 flipped bits), s_plus_jL (S+jL for every j with S+jL < 2^256), torsion (A=[s]B+T, R=[r]B+T' for all 8x8 torsion pairs, S=r+k*s with k over the bytes as given, and the same with S perturbed), smallorder (every encoding of every small-order point incl. non-canonical ones as A and as R, with S=0, S=k*s, S=jL, S=1), noncanonical_y (all 38 encodings with y>=p), undecodable A/R, length (signature lengths 0..70), random. " +
+		Rule: "(public key, message, signature) triples in classes: honest (crypto/ed25519 signatures, message length 0..300), bitflip (1-2 flipped bits), s_plus_jL (S+jL for every j with S+jL < 2^256), torsion (A=[s]B+T, R=[r]B+T' for all 8x8 torsion pairs, S=r+k*s with k over the bytes as given, and the same with S perturbed), smallorder (every encoding of every small-order point incl. non-canonical ones as A and as R, with S=0, S=k*s, S=jL, S=1), noncanonical_y (all 38 encodings with y>=p), undecodable A/R, length (signature lengths 0..70), random, and sequence (2..6 consecutive calls on the related keys A and -A, which differ in the sign bit only, with signatures of either, torsion-shifted keys and undecodable R in between: every verdict must equal the predicate of that call alone). " +
 			"Every Verify call is judged two-sidedly against the big-integer ZIP-215 model and one-sidedly against crypto/ed25519 (std accept => accept). Non-trivial: every distinct triple outside class random.",
 		Assumptions: []string{"SHA-512 of the Go standard library", "math/big", "the ZIP-215 model in harness/oracle/ed (self-tested against RFC 8032 vectors, crypto/ed25519 and the known small-order encodings)"},
 		SelfTest:    ed.SelfTest,
 		Gen:         gen,
 		Judge:       judge,
 		Render:      render,
-		Required:    []string{"model=accept impl=accept", "model=reject impl=reject", "std=accept"},
+		Required:    []string{"model=accept impl=accept", "model=reject impl=reject", "std=accept", "sequence step model=accept", "sequence step model=reject"},
 	})
 }
 
 func render(class string, key []byte) interface{} {
 	p := fw.Unpack(key)
+	if class == "sequence" {
+		var calls []map[string]string
+		for i := 0; i+2 < len(p); i += 3 {
+			calls = append(calls, map[string]string{"public_key": fw.Hex(p[i]), "message": fw.Hex(p[i+1]), "signature": fw.Hex(p[i+2])})
+		}
+		return map[string]interface{}{"calls_in_order": calls}
+	}
 	return map[string]string{"public_key": fw.Hex(p[0]), "message": fw.Hex(p[1]), "signature": fw.Hex(p[2])}
 }
 
 func judge(class string, key []byte, o *fw.Obs) {
 	p := fw.Unpack(key)
+	if class == "sequence" {
+		// a history of calls in one process: every verdict must equal the predicate of that call alone
+		o.Nontrivial()
+		for i := 0; i+2 < len(p); i += 3 {
+			pub, msg, sig := p[i], p[i+1], p[i+2]
+			want := ed.VerifyZIP215(pub, msg, sig)
+			var got bool
+			if !o.Try("ed25519.Verify", func() { got = ed25519.Verify(ed25519.PublicKey(pub), msg, sig) }) {
+				return
+			}
+			o.Count(fmt.Sprintf("model=%s impl=%s", ar(want), ar(got)))
+			o.Count(fmt.Sprintf("sequence step model=%s", ar(want)))
+			if want != got {
+				o.Fail("verdict", "call %d of a sequence of %d Verify calls: Verify(%x, %x, %x) = %v but the ZIP-215 predicate is %v (earlier calls of the sequence used related keys; the verdict must not depend on them)", i/3+1, len(p)/3, pub, msg, sig, got, want)
+				return
+			}
+		}
+		return
+	}
 	pub, msg, sig := p[0], p[1], p[2]
 	if class != "random" {
 		o.Nontrivial()
@@ -225,6 +251,54 @@ func gen(g *fw.Gen) {
 		} else {
 			emit(g, "undecodable", []byte(sk[32:]), msg, append(append([]byte(nil), bad...), sig[32:]...))
 		}
+	}
+
+	// sequences of calls on related keys (A, -A, A+T, undecodable in between): the verdict of a call
+	// must not depend on earlier calls (caches, pooled state)
+	for n := g.ShareOf(400, 20000); n > 0; n-- {
+		sk := randScalar(g)
+		nsk := new(big.Int).Sub(ed.L, sk)
+		type kp struct {
+			sc  *big.Int
+			pub []byte
+		}
+		keys := []kp{{sk, ed.BaseMul(sk).Encode()}, {nsk, ed.BaseMul(nsk).Encode()}}
+		sign := func(k kp, msg []byte) []byte {
+			r := randScalar(g)
+			R := ed.BaseMul(r).Encode()
+			h := ed.HashModL(R, k.pub, msg)
+			S := new(big.Int).Mul(h, k.sc)
+			S.Add(S, r).Mod(S, ed.L)
+			return sigOf(R, S)
+		}
+		var parts [][]byte
+		steps := 2 + g.Rng.Intn(5)
+		for st := 0; st < steps; st++ {
+			k := keys[st%2]
+			if g.Rng.Intn(4) == 0 {
+				k = keys[g.Rng.Intn(2)]
+			}
+			msg := randMsg(g)
+			switch g.Rng.Intn(6) {
+			case 0: // signature of the other key of the pair: must be rejected
+				parts = append(parts, k.pub, msg, sign(keys[1-st%2], msg))
+			case 1: // undecodable R in between
+				bad := g.Bytes(32)
+				for {
+					if _, ok := ed.Decode(bad, false); !ok {
+						break
+					}
+					bad = g.Bytes(32)
+				}
+				sg := sign(k, msg)
+				parts = append(parts, k.pub, msg, append(bad, sg[32:]...))
+			case 2: // the key with a torsion component, honest signature of the clean key
+				parts = append(parts, ed.BaseMul(k.sc).Add(tors[1+g.Rng.Intn(7)]).Encode(), msg, sign(k, msg))
+			default:
+				parts = append(parts, k.pub, msg, sign(k, msg))
+			}
+		}
+		g.Emit("sequence", fw.Pack(parts...))
 	}
 
 	// (h) random triples
